@@ -20,7 +20,7 @@ rm $CRATE/seeded_demo.rs
 cargo test --workspace --no-fail-fast --offline > $OUT/suite_with.log 2>&1; S=$?
 if [ $S -ne 0 ]; then
   # the timing-sensitive stress test fails spuriously under load: accept if it is the only failure and passes alone
-  NF=$(grep -c "^test .* FAILED" $OUT/suite_with.log)
+  NF=$(grep -c "^test [^ ]* \.\.\. FAILED" $OUT/suite_with.log)
   if [ "$NF" = "1" ] && grep -q "test_length_data_consistency_stress ... FAILED" $OUT/suite_with.log; then
     cargo test -p vecdb --test concurrent_rw --offline > $OUT/suite_retry.log 2>&1 && S=0
   fi
